@@ -36,7 +36,8 @@ StateJson(s) ==
    \* some removal candidate reaches a dependant twice: its outcome depends on hash iteration order
    hashsens |-> \E n \in ILive(s) : LET T == DepSucc(AbsView(s), n) \cup AliasSucc(AbsView(s), n)
                                      IN \E t1, t2 \in T : t1 # t2 /\ t2 \in Closure(AbsView(s), {t1}),
-   comp |-> IF EncodeOutcome(AbsView(s)) = {"ok"} THEN EncodeOf(AbsView(s)) ELSE <<>>]
+   \* the abstract components the contract allows (more than one only in the unspecified case)
+   comps |-> IF "ok" \in EncodeOutcome(AbsView(s)) THEN EncodeOf(AbsView(s)) ELSE {}]
 
 Digest(st) ==
   <<Cardinality(DOMAIN st.nodes), Cardinality(st.args), Cardinality(st.aliases),
